@@ -203,36 +203,44 @@ def run(ctx):
         r.undecidable(E, "clamp closure of set_width_heuristics not found uniquely (%d)" % len(cl))
     else:
         cl = cl[0]
+        from absint import KEYVALS
         paths = explore(cl)
         r.paths(E, len(paths))
+        # roles of the parameters, independent of their positions: the bool one says whether the user set the option; the
+        # comparison `value > max_width` names those two; the remaining integer parameter is the heuristic's value
+        bools = ["arg%d" % i for i in range(1, cl.argc + 1) if cl.locals[i] == "bool"]
         n = 0
         for path in paths:
             if path.end != "ret" or path.ret is None:
                 continue
             dec = [(k, variant_name(v)) for k, v in path.decisions]
             was_set = None
-            gt = None
+            smaller = None       # the operand the comparison on this path has shown to be the smaller (or equal) one
+            pair = None
             for k, v in dec:
-                if k == "arg2" or k.endswith("arg2"):
+                if k in bools or any(k.endswith(b_) for b_ in bools):
                     was_set = v
-                if " Gt " in k:
-                    gt = v
+                kv = KEYVALS.get(k)
+                if kv is not None and kv[0] == "bin" and kv[1] in ("Gt", "Lt", "Ge", "Le") and isinstance(v, bool):
+                    x, y = vkey(kv[2]), vkey(kv[3])
+                    pair = (x, y)
+                    x_small = (kv[1] in ("Lt", "Le")) == v
+                    smaller = x if x_small else y
             ret = vkey(path.ret)
             if was_set is False:
-                ok = ret == "arg4"
-            elif was_set is True and gt is True:
-                ok = "max_width" in ret or ret.startswith("arg1")
-            elif was_set is True and gt is False:
-                ok = ret == "arg3"
+                ok = ret.startswith("arg") and ret not in bools and (pair is None or ret not in pair)
+            elif was_set is True and smaller is not None:
+                ok = ret == smaller or ("max_width" in ret and "max_width" in smaller)
             else:
                 ok = False
             n += 1
             r.cells(E, 1)
-            r.instance(E, "clamp[was_set=%s, value>max=%s]" % (was_set, gt), "ok" if ok else "violation",
+            r.instance(E, "clamp[was_set=%s, smaller=%s]" % (was_set, smaller), "ok" if ok else "violation",
                        "%s:%d" % (cl.file, cl.line), ret)
             if not ok:
-                r.violation(E, "width clamp[was_set=%s,value>max_width=%s] returns %s" % (was_set, gt, ret),
-                            "a derived width can exceed max_width or ignore the user's value", ["%s:%d" % (cl.file, cl.line)])
+                r.violation(E, "width clamp[was_set=%s] does not return %s" % (was_set, "min(value, max_width)" if was_set else "the heuristic value"),
+                            "a derived width can exceed max_width or ignore the user's value (returns %s; compared %s, smaller %s)"
+                            % (ret, pair, smaller), ["%s:%d" % (cl.file, cl.line)])
         r.floor(E, n, 3, "paths of the clamp closure")
 
 
